@@ -90,7 +90,7 @@ def theorems_in(props_file: str):
         if m and ns and ns[-1].split(".")[-1] == m.group(1).split(".")[-1]:
             ns.pop()
             continue
-        m = re.match(r"\s*(?:@\[[^\]]*\]\s*)?(?:private\s+|protected\s+)?theorem\s+(\S+)", line)
+        m = re.match(r"\s*(?:@\[[^\]]*\]\s*)?(?:protected\s+)?theorem\s+(\S+)", line)   # private helpers are not obligations
         if m:
             names.append(".".join(ns + [m.group(1)]))
     return names
